@@ -39,29 +39,24 @@ def h : Handler := fun op j =>
   | "attr_violation" => do
       let r ← asRxn (← field j "rxn")
       pure (showRat (attrViolation r (← getVars j "attrs")))
-  | "elim_expr" => do
-      let row ← getRatList j "row"
-      let y0 ← getRatList j "y0"
-      let y ← getRatList j "y"
-      let ci ← getNat j "ci"
-      let idx ← getNat j "idx"
-      let ny := row.length
-      if y0.length ≠ ny ∨ y.length ≠ ny ∨ idx ≥ ny ∨ ci > idx then .error "!bad-arg:shape" else
-      if fnOf row idx = 0 then pure "ZeroDivisionError" else
-      pure (showRat (elimExpr (fnOf row) (fnOf y0) (fnOf y) ci ny idx))
-  | "elim_plan" => do
+  | "elim_full" => do
+      -- rows: the reduced matrix from sympy's rref (all rows), npiv = len(pivots)
       let rows ← (← getArr j "rows").mapM fun r => do (← asArr r).mapM asRat
-      let pivots ← (← getArr j "pivots").mapM asNat
+      let npiv ← getNat j "npiv"
       let names ← getStrList j "names"
       let pref ← getOptKeys j "preferred"
+      let y0 ← getRatList j "y0"
+      let y ← getRatList j "y"
       let ny := names.length
-      if rows.length ≠ pivots.length ∨ rows.any (fun r => r.length ≠ ny) ∨ pivots.any (fun p => p ≥ ny) then
-        .error "!bad-arg:shape" else
-      let (cs, left) := elimPlan (fnOfS names) ny ((rows.map fnOf).zip pivots) 0 pref
+      let m := rows.length
+      if npiv > m ∨ rows.any (fun r => r.length ≠ ny) ∨ y0.length ≠ ny ∨ y.length ≠ ny then .error "!bad-arg:shape" else
+      let (M, cs, left) := elimPlan m ny (fnOfS names) npiv rows pref
       let chosen := "[" ++ ",".intercalate (cs.map fun c => s!"[{c.1},{c.2}]") ++ "]"
       match left with
-      | some (_ :: _) => pure (chosen ++ ";ValueError")
-      | _ => pure (chosen ++ ";ok")
+      | some (_ :: _) => pure (chosen ++ ";ValueError;")
+      | _ =>
+        let vals := cs.map fun c => elimExpr (entry M c.1) (fnOf y0) (fnOf y) ny c.2
+        pure (chosen ++ ";ok;" ++ showRatList vals)
   | _ => .error "!bad-op"
 
 def main : IO Unit := run h
